@@ -66,6 +66,8 @@ def run(cmd, cwd=None, env=None, timeout=None, input=None):
 # nothing changed)
 
 def build_acmed(release=False):
+    import mkindex
+    mkindex.main()
     cmd = ["cargo", "build", "--offline", "-p", "acmed", "--features", FEATURE]
     if release:
         cmd.append("--release")
@@ -109,6 +111,8 @@ class BuildError(Exception):
 
 def lake_build(targets):
     """Returns (ok, output)."""
+    import mkindex
+    mkindex.main()
     with Lock("lake"):
         rc, out = run(["lake", "build"] + list(targets), cwd=LEAN, timeout=3600)
     return rc == 0, out
